@@ -553,10 +553,11 @@ def parseChunk(raw):  # reading transfer encoded raw
         (yield None)
 
     size, sep, exts = line.partition(b';')
-    try:
-        size = int(size.strip().decode('ascii'), 16)
-    except ValueError:  # bad size
-        raise
+    size = size.strip()
+    if not size or size.strip(b'0123456789abcdefABCDEF'):  # chunk-size = 1*HEX
+        # int(size, 16) alone would accept sign, 0x prefix and underscores
+        raise ValueError("Invalid chunk size '{0}'".format(size.decode('iso-8859-1')))
+    size = int(size.decode('ascii'), 16)
 
     if exts:  # parse extensions parameters
         exts = exts.split(b';')
